@@ -96,6 +96,35 @@ def session(cfgp, script):
     return {"cfg": cfgp, "ev": ev, "script": [list(x) for x in script]}
 
 
+def refill_trace(rng):
+    """real-valued build data (a decimal grid, or continuous values): build, file the same rows under another id, compare"""
+    from menelaus.partitioners import KDQTreePartitioner
+    d = rng.randint(1, 3)
+    n = rng.randint(5, 120)
+    style = rng.choice(["tenths", "tenths", "hundredths", "continuous", "thirds"])
+    if style == "tenths":
+        data = [[rng.randint(0, 30) / 10 for _ in range(d)] for _ in range(n)]
+    elif style == "hundredths":
+        data = [[rng.randint(0, 200) / 100 for _ in range(d)] for _ in range(n)]
+    elif style == "thirds":
+        data = [[rng.randint(0, 12) / 3 for _ in range(d)] for _ in range(n)]
+    else:
+        data = [[rng.uniform(-5, 5) for _ in range(d)] for _ in range(n)]
+    cfgp = {"ub": rng.choice([1, 2, 3, 8]), "lbnum": rng.choice([0, 1]), "lbden": rng.choice([4, 8])}
+    return refill_from(cfgp, data)
+
+
+def refill_from(cfgp, data):
+    from menelaus.partitioners import KDQTreePartitioner
+    part = KDQTreePartitioner(count_ubound=cfgp["ub"], cutpoint_proportion_lbound=cfgp["lbnum"] / cfgp["lbden"])
+    a = np.array(data, dtype=float)
+    part.build(a)
+    part.fill(a.copy(), tree_id="a", reset=True)
+    e = {"op": "refill", "cb": [int(x) for x in part.leaf_counts("build")], "cf": [int(x) for x in part.leaf_counts("a")],
+         "n": len(data), "kl": num(part.kl_distance("build", "a"))}
+    return {"cfg": cfgp, "ev": [e], "script": [["refill", data]], "data": data}
+
+
 def random_points(rng, n, d, style):
     if style == "grid":
         return [[rng.randint(0, 7) for _ in range(d)] for _ in range(n)]
